@@ -765,6 +765,79 @@ theorem C17_route_empty_path (verbs : List Bytes) : routeAll (requestPath [] [])
 theorem C17_route_star_path (verbs : List Bytes) : routeAll (requestPath [] [42]) verbs = .ok none :=
   C17_route_no_leading_slash [] [42] verbs (by decide)
 
+/-! #### `RouteHTTP` as a whole = C03's `routePath` (round 6) -/
+
+theorem C17_route_loop_is_C03 {ι : Type} (comps : List Bytes) (last : Bytes) (hne : comps ≠ []) (rts : List (GB.C03.Route ι)) :
+    ∃ l, (rts.map (·.verb)).mapM (routeIter comps last comps.length) = .ok l ∧
+      consumeSlices l rts = GB.C03.iterate comps last rts := by
+  induction rts with
+  | nil => exact ⟨[], rfl, rfl⟩
+  | cons r rs ih =>
+    obtain ⟨s, hs, _, heq⟩ := C17_route_step_is_C03 comps last r hne
+    obtain ⟨l, hl, hc⟩ := ih
+    refine ⟨s :: l, ?_, ?_⟩
+    · simp [List.mapM_cons, C17_route_iter_eq, hs, hl, bind, Except.bind, pure, Except.pure]
+    · simp only [consumeSlices, GB.C03.iterate]
+      rw [heq, hc]
+      cases s with
+      | comps mc v => simp only []; generalize r.run mc v = x; cases x <;> rfl
+      | invalid => rfl
+      | skipRoute => rfl
+
+theorem C17_index_last (xs : List Bytes) (last : Bytes) (h : xs.getLast? = some last) :
+    goIndexL xs ((xs.length : Int) - 1) = .ok last := by
+  have hne : xs ≠ [] := by intro e; simp [e] at h
+  have hpos : 1 ≤ xs.length := by
+    cases xs with | nil => exact absurd rfl hne | cons _ _ => simp
+  unfold goIndexL
+  rw [if_pos (by omega)]
+  have e : ((xs.length : Int) - 1).toNat = xs.length - 1 := by omega
+  rw [e, ← List.getLast?_eq_getElem?, h]
+
+/-- **`RouteHTTP` as a whole IS C03's `routePath`, for every path and every route table**: the Fault-explicit
+    model (prefix test, `path[1:]`, `pathComponents[len-1]`, the shared re-sliced buffer, the per-route verb cut
+    with its index arithmetic) never faults, and feeding what it hands to the matcher — every route of the method's
+    list, in order — through the routes' own `MatchAndEscape` gives exactly `GB.C03.routePath`'s result (found id and
+    captures, NotFound, InvalidArgument), not just route-by-route agreement. -/
+theorem C17_route_all_is_C03 {ι : Type} (tbl : List (GB.C03.Route ι)) (method path : Bytes) :
+    ∃ rs, routeAll path ((tbl.filter fun r => r.httpMethod == method).map (·.verb)) = .ok rs ∧
+      routeAllResult rs (tbl.filter fun r => r.httpMethod == method) = GB.C03.routePath tbl method path := by
+  unfold routeAll GB.C03.routePath
+  cases path with
+  | nil => exact ⟨none, rfl, rfl⟩
+  | cons c p =>
+    by_cases hc : c = 47
+    · subst hc
+      have hp : hasPrefix (47 :: p) [47] = true := by simp [hasPrefix, List.isPrefixOf]
+      have hs : goSliceFrom (47 :: p) 1 = .ok p := by
+        have := goSlice_eq (47 :: p) 1 (47 :: p).length (by simp)
+        simpa [goSliceFrom] using this
+      have hne := splitSlash_ne_nil p
+      cases hl : (GB.C03.splitSlash p).getLast? with
+      | none => simp [List.getLast?_eq_none_iff] at hl; exact absurd hl hne
+      | some last =>
+        obtain ⟨l, h1, h2⟩ := C17_route_loop_is_C03 (GB.C03.splitSlash p) last hne (tbl.filter fun r => r.httpMethod == method)
+        refine ⟨some l, ?_, ?_⟩
+        · simp only [hp, Bool.not_true, Bool.false_eq_true, ↓reduceIte, hs, bind, Except.bind,
+            C17_index_last _ last hl, h1]
+        · simp only [routeAllResult, hl, h2]
+    · have hp : hasPrefix (c :: p) [47] = false := by simp [hasPrefix, List.isPrefixOf, Ne.symm hc]
+      refine ⟨none, by simp [hp], ?_⟩
+      simp only [routeAllResult]
+      split
+      · rename_i heq; cases heq; exact absurd rfl hc
+      · rfl
+
+/-- with the path choice (`RawPath`, else `EscapedPath()`) in front: the whole of `RouteHTTP` = `GB.C03.routeHTTP` -/
+theorem C17_route_http_is_C03 {ι : Type} (tbl : List (GB.C03.Route ι)) (method : Bytes) (u : GB.C03.Url) :
+    ∃ rs, routeAll (requestPath u.rawPath (GB.C03.escapedPath u)) ((tbl.filter fun r => r.httpMethod == method).map (·.verb)) = .ok rs ∧
+      routeAllResult rs (tbl.filter fun r => r.httpMethod == method) = GB.C03.routeHTTP tbl method u := by
+  have hpc : requestPath u.rawPath (GB.C03.escapedPath u) = GB.C03.pathChoice u := by
+    unfold requestPath GB.C03.pathChoice
+    cases u.rawPath <;> simp
+  rw [hpc]
+  exact C17_route_all_is_C03 tbl method (GB.C03.pathChoice u)
+
 /-! ### parseMetadataQuery as a whole: the lazily created maps -/
 
 theorem C17_md_vals_loop (mk : Bytes) (vals : List Bytes) (md : NilMap GB.C19.MD) :
@@ -837,6 +910,127 @@ theorem C17_mdquery_no_panic (param0 : Bytes) (q : GB.C19.Values) :
       st.modified.isSome = (GB.C19.parseMetadataQuery param0 q).modified := by
   obtain ⟨st, h1, h2, h3⟩ := C17_md_query_loop (if param0.isEmpty then GB.C19.defaultParam else param0) q q ⟨none, none⟩
   exact ⟨st, h1, by simpa [GB.C19.parseMetadataQuery] using h2, by simpa [GB.C19.parseMetadataQuery] using h3⟩
+
+/-! #### the REMAINING query (round 6): content of the lazily cloned `modified` map = C19's `query` -/
+
+/-- one loop iteration, the `modified` map exactly: untouched for a non-metadata key, else (cloned from the original if
+    still nil, then) without every entry under that key — whether or not the metadata key / values are valid. -/
+theorem C17_md_query_step_modified (param : Bytes) (orig : GB.C19.Values) (st st' : MQSt) (e : Bytes × List Bytes)
+    (h : mdQueryStep param orig st e = .ok st') :
+    st'.modified = (if GB.C19.isMetaKey param e.1 then some ((st.modified.getD orig).filter (fun x => x.1 != e.1))
+                    else st.modified) := by
+  unfold mdQueryStep at h
+  cases hm : GB.C19.isMetaKey param e.1 with
+  | false =>
+    simp only [hm, Bool.not_false, ↓reduceIte, Except.ok.injEq] at h
+    simp [← h]
+  | true =>
+    have hdel : mapDeleteGo (match st.modified with | none => some orig | some m => some m) e.1
+        = some ((st.modified.getD orig).filter (fun x => x.1 != e.1)) := by
+      cases st.modified <;> simp [mapDeleteGo]
+    simp only [hm, Bool.not_true, Bool.false_eq_true, ↓reduceIte, bind, Except.bind] at h
+    simp only [↓reduceIte]
+    split at h
+    · exact absurd h (by simp)
+    · split at h
+      · simp only [Except.ok.injEq] at h
+        rw [← h]; exact hdel
+      · split at h
+        · exact absurd h (by simp)
+        · simp only [Except.ok.injEq] at h
+          rw [← h]; exact hdel
+
+/-- the loop, with the keys deleted so far as a predicate `P`: the remaining query after the loop is the original one
+    without the keys in `P` and without every metadata-shaped key the loop visited. -/
+theorem C17_md_query_loop_remaining (param : Bytes) (orig : GB.C19.Values) (es : List (Bytes × List Bytes))
+    (st st' : MQSt) (P : Bytes → Bool)
+    (hinv : st.remaining orig = orig.filter (fun x => !P x.1))
+    (h : mdQueryLoop param orig es st = .ok st') :
+    st'.remaining orig =
+      orig.filter (fun x => !(P x.1 || es.any (fun d => GB.C19.isMetaKey param d.1 && d.1 == x.1))) := by
+  induction es generalizing st P with
+  | nil =>
+    simp only [mdQueryLoop, Except.ok.injEq] at h
+    subst h
+    simpa using hinv
+  | cons e es ih =>
+    obtain ⟨s1, h1, _, _⟩ := C17_md_query_step param orig st e
+    have hm := C17_md_query_step_modified param orig st s1 e h1
+    unfold mdQueryLoop at h
+    simp only [h1, bind, Except.bind] at h
+    have hinv1 : s1.remaining orig
+        = orig.filter (fun x => !((fun k => P k || (GB.C19.isMetaKey param e.1 && e.1 == k)) x.1)) := by
+      unfold MQSt.remaining at hinv ⊢
+      rw [hm]
+      cases hk : GB.C19.isMetaKey param e.1 with
+      | false => simpa using hinv
+      | true =>
+        simp only [↓reduceIte, Option.getD_some, hinv, List.filter_filter, Bool.true_and]
+        apply List.filter_congr
+        intro x _
+        by_cases hx : e.1 = x.1
+        · simp [hx]
+        · have hx' : ¬ x.1 = e.1 := fun h => hx h.symm
+          have hb : (e.1 == x.1) = false := by rw [beq_eq_false_iff_ne]; exact hx
+          have hb' : (x.1 != e.1) = true := by rw [bne_iff_ne]; exact hx'
+          cases hp : P x.1 <;> simp [hb, hb']
+    rw [ih s1 (fun k => P k || (GB.C19.isMetaKey param e.1 && e.1 == k)) hinv1 h]
+    apply List.filter_congr
+    intro x _
+    simp [Bool.or_assoc]
+
+/-- **The remaining query of the Fault-explicit whole-function model IS C19's**: for every parameter name and every
+    query (any keys, duplicates, invalid metadata keys or values), what `parseMetadataQuery` hands on for binding
+    — the lazily cloned `modified` map after all its `delete`s, or the original query when it stayed nil — is
+    exactly `GB.C19.parseMetadataQuery`'s `query`: the original parameters minus ALL `param[...]` keys, nothing else
+    removed, order kept. -/
+theorem C17_mdquery_remaining_is_C19 (param0 : Bytes) (q : GB.C19.Values) (st : MQSt)
+    (h : parseMetadataQueryGo param0 q = .ok st) :
+    st.remaining q = (GB.C19.parseMetadataQuery param0 q).query := by
+  unfold parseMetadataQueryGo at h
+  have hl := C17_md_query_loop_remaining _ q q ⟨none, none⟩ st (fun _ => false) (by show q = q.filter (fun _ => !false); exact (List.filter_eq_self.2 (by simp)).symm) h
+  rw [hl]
+  simp only [GB.C19.parseMetadataQuery, Bool.false_or]
+  apply List.filter_congr
+  intro x hx
+  congr 1
+  cases hk : GB.C19.isMetaKey (if param0.isEmpty then GB.C19.defaultParam else param0) x.1 with
+  | true =>
+    simp only [List.any_eq_true, Bool.and_eq_true, beq_iff_eq]
+    exact ⟨x, hx, hk, rfl⟩
+  | false =>
+    rw [List.any_eq_false]
+    intro d _
+    by_cases hd : d.1 = x.1
+    · rw [hd, hk]; simp
+    · simp [hd]
+
+/-- **`parseMetadataQuery` as a whole = C19's total model, all three results**: it never faults, and its metadata,
+    its "query was rewritten" flag AND the remaining parameters are `GB.C19.parseMetadataQuery`'s. -/
+theorem C17_mdquery_is_C19 (param0 : Bytes) (q : GB.C19.Values) :
+    ∃ st, parseMetadataQueryGo param0 q = .ok st ∧
+      (⟨st.md.getD [], st.remaining q, st.modified.isSome⟩ : GB.C19.MQ) = GB.C19.parseMetadataQuery param0 q := by
+  obtain ⟨st, h1, h2, h3⟩ := C17_mdquery_no_panic param0 q
+  refine ⟨st, h1, ?_⟩
+  rw [h2, h3, C17_mdquery_remaining_is_C19 param0 q st h1]
+
+/-- a query without any `param[...]` key is handed on untouched (no clone, `RawQuery` not rewritten) -/
+theorem C17_mdquery_untouched (param0 : Bytes) (q : GB.C19.Values) (st : MQSt)
+    (h : parseMetadataQueryGo param0 q = .ok st)
+    (hq : ∀ e ∈ q, GB.C19.isMetaKey (if param0.isEmpty then GB.C19.defaultParam else param0) e.1 = false) :
+    st.modified = none ∧ st.remaining q = q := by
+  obtain ⟨st2, g1, _, g3⟩ := C17_mdquery_no_panic param0 q
+  rw [h] at g1
+  cases g1
+  have hany : (GB.C19.parseMetadataQuery param0 q).modified = false := by
+    simp only [GB.C19.parseMetadataQuery, List.any_eq_false]
+    intro e he; rw [hq e he]; simp
+  rw [hany] at g3
+  have hn : st.modified = none := by cases hmm : st.modified <;> simp [hmm] at g3 ⊢
+  exact ⟨hn, by simp [MQSt.remaining, hn]⟩
+
+example : (parseMetadataQueryGo [] [([97], [[49]]), ([95,109,101,116,97,100,97,116,97,91,120,93], [[50]]), ([98], [[51]])]).toOption.map
+    (fun st => st.remaining []) = some [([97], [[49]]), ([98], [[51]])] := by decide
 
 /-! ### unchecked type assertions -/
 
